@@ -6,6 +6,7 @@ replay only: the theorems of `Props/C12Compose.lean` / `Props/C11Compose.lean` d
 Output: one line per program, `<name> <program> ok <schedules>` or `<name> <program> FAIL <schedule> => <observation>`.
 -/
 import Iox2.Gen.ApiOrder
+import Iox2.Proof.ComposePS
 open Iox2.Compose Iox2.Gen.ApiOrder
 
 namespace BBSearch
@@ -66,6 +67,36 @@ def run (name : String) (prog : List COp) (depth : Nat) : IO Bool := do
       return true
 end RRSearch
 
+namespace PSSearch
+open Iox2.Compose.PS
+
+/-- a sample received twice or out of order -/
+def bad : List Nat → Bool
+  | a :: b :: r => decide (b ≤ a) || bad (b :: r)
+  | _ => false
+
+partial def dfs (prog : List POp) (depth : Nat) (s : St) (sched : List String) (count : IO.Ref Nat) : IO (Option (List String × String)) := do
+  count.modify (· + 1)
+  if bad s.queue then return some (sched.reverse, s!"the subscriber received {s.queue}")
+  if depth = 0 then return none
+  let moves : List (String × St) := [("begin", pbegin prog s), ("pstep", pstep s), ("register", sregister s)]
+  for (n, t) in moves do
+    match ← dfs prog (depth - 1) t (n :: sched) count with
+    | some r => return some r
+    | none => pure ()
+  return none
+
+def run (name : String) (prog : List POp) (depth : Nat) : IO Bool := do
+  let count ← IO.mkRef 0
+  match ← dfs prog depth {} [] count with
+  | some (sched, obs) =>
+      IO.println s!"{name} {repr prog} FAIL {String.intercalate " " sched} => {obs}"
+      return false
+  | none =>
+      IO.println s!"{name} {repr prog} ok {← count.get}"
+      return true
+end PSSearch
+
 def main (args : List String) : IO UInt32 := do
   let d1 := (args[0]? >>= String.toNat?).getD 10
   let d2 := (args[1]? >>= String.toNat?).getD 7
@@ -74,5 +105,6 @@ def main (args : List String) : IO UInt32 := do
   let b ← BBSearch.run "bb.assume_init_and_update" (BB.updateProg entryValueUninit_new (.writeValue :: entryValueUninit_assumeInitAndUpdate)) d1
   let c ← BBSearch.run "bb.internal_update" (BB.updateProg internalEntryValueUninit_new (.writeValue :: internalEntryValueUninit_update)) d1
   let d ← RRSearch.run "rr.send_request" (RR.expand client_sendRequest) d2
-  ok := a && b && c && d
+  let e ← PSSearch.run "ps.send_sample" (PS.expand publisher_sendSample) d1
+  ok := a && b && c && d && e
   return if ok then 0 else 1
